@@ -37,7 +37,7 @@ def toUrl : Conv → Value → Except String Str
   | .path, v => .ok (quote pathSafe (pyStr v))
   | .any items, v =>
     match v with
-    | .str s => if items.contains s then .ok s else .error "ValueError"
+    | .str s => if items.contains s then .ok (quote pathSafe s) else .error "ValueError"
     | _ => .error "ValueError"
   | .uuid, v => .ok (pyStr v)
   | .int fixed .., v =>
